@@ -174,13 +174,13 @@ def translate(pins=None):
     out = []
     out.append("(* GENERATED by translate/tr_tagdb.py from redun/cli.py, redun/hashing.py, redun/tags.py,\n"
                "   redun/backends/db/__init__.py -- do not edit. *)\n")
-    out.append("From Coq Require Import List String Bool.\nFrom RV Require Import Model.Tags Props.C24.\n"
-               "Import ListNotations.\nOpen Scope string_scope.\n\n")
+    out.append("From Coq Require Import String List Bool.\nFrom RV Require Import Model.Tags Proofs.TagsInv Proofs.TagsSweep Props.C24.\n"
+               "Import ListNotations.\nOpen Scope list_scope.\n\n")
     out.append(f"(* record_tags: {v_rt}; delete_tags: {v_dt} *)\n")
     out.append(f"Definition gen_cfg : cfg := mkCfg {b(cfg['dedupe'])} {b(cfg['skip_current'])} {b(cfg['null_match'])}.\n")
     out.append("(* (add: update, new, update: update, new) keyword flags of the record_tags calls in cli.py *)\n")
     out.append("Definition gen_cli : bool * bool * bool * bool := (%s, %s, %s, %s).\n" % tuple(b(x) for x in cli_flags))
-    out.append("Definition gen_hash_fields : list string := [" + "; ".join('"' + f + '"' for f in fields) + "].\n")
+    out.append("Definition gen_hash_fields : list string := [" + "; ".join('"' + f + '"%string' for f in fields) + "].\n")
     out.append(f"Definition gen_default_current : bool := {b(default_current)}.\n\n")
     out.append("Lemma C24_tie_cli : gen_cli = cli_model.\nProof. reflexivity. Qed.\n")
     out.append("Lemma C24_tie_hash : gen_hash_fields = hash_fields_model.\nProof. reflexivity. Qed.\n")
@@ -193,11 +193,21 @@ def translate(pins=None):
                "Proof. exact (C24_edit_graph_acyclic gen_cfg). Qed.\n")
     out.append("Lemma C24_gen_terminates : forall ops, exists s, run gen_cfg init ops = Some s.\n"
                "Proof. exact (C24_walk_terminates gen_cfg). Qed.\n")
-    out.append("Lemma C24_gen_refines : forall ops s, ok_for gen_cfg ops -> run gen_cfg init ops = Some s ->\n"
-               "  forall e k v, In (k, v) (cur_pairs s e) <-> spec_has (spec_run ops) e k v = true.\n"
-               "Proof. exact (C24_refines_set gen_cfg). Qed.\n")
-    if cfg["dedupe"] and cfg["skip_current"] and cfg["null_match"]:
-        out.append("Lemma C24_gen_ok_for_all : forall ops, ok_for gen_cfg ops.\nProof. exact C24_fixed_ok_for_all. Qed.\n")
+    strict = cfg["dedupe"] and cfg["skip_current"]
+    out.append("(* the bounded refinement sweep for this configuration *)\n")
+    out.append(f"Lemma C24_gen_sweep : sweep gen_cfg {b(strict)} 4 init [] = true.\n")
+    if not any(cfg.values()):
+        out.append("Proof. exact sweep_shipped_4. Qed.\n")
+    elif all(cfg.values()):
+        out.append("Proof. exact sweep_fixed_4. Qed.\n")
+    else:
+        out.append("Proof. vm_compute. reflexivity. Qed.\n")
+    out.append("Lemma C24_gen_refines : forall ops, in_scope ops -> ok_for gen_cfg ops ->\n"
+               "  exists s, run gen_cfg init ops = Some s /\\ run_log gen_cfg init ops = repeat 0 (length ops) /\\\n"
+               "    forall e, In e sw_ents ->\n"
+               "      (forall k v, In (k, v) (cur_pairs s e) <-> spec_has (spec_run ops) e k v = true) /\\\n"
+               f"      ({b(strict)} = true -> NoDup (cur_pairs s e)).\n"
+               f"Proof. exact (refines_of_sweep gen_cfg {b(strict)} C24_gen_sweep). Qed.\n")
     notes.append(f"record_tags={v_rt} delete_tags={v_dt} cli_flags={cli_flags} hash_fields={fields}")
     return "".join(out), dict(cfg=cfg, variant_record_tags=v_rt, variant_delete_tags=v_dt, cli=cli_flags,
                               fields=fields, default_current=default_current, notes=notes)
